@@ -187,7 +187,7 @@ def native_run(target, inputs, choices):
 
             def nfb(obj, mname, cls=cls):
                 fn = cls.__dict__.get(mname)
-                if isinstance(fn, (str, int, float, tuple, list, dict, frozenset, set)):
+                if isinstance(fn, (str, int, float, tuple, list, dict, frozenset, set, __import__('re').Pattern)):
                     import copy as _copy
                     return _copy.deepcopy(fn)          # a class-level constant: a private copy, as in the symbolic run
                 if fn is None or not callable(getattr(fn, '__func__', fn)):
@@ -273,7 +273,7 @@ def explore_chunk(target, work, limit, carve_names, tier, cross_check=True):
                     for part in icls.split('.'):
                         k = getattr(k, part)
                     v = k.__dict__.get(mname, None)
-                    if isinstance(v, (str, int, float, tuple, list, dict, frozenset, set)):
+                    if isinstance(v, (str, int, float, tuple, list, dict, frozenset, set, __import__('re').Pattern)):
                         return _copy.deepcopy(v)
                     return None
                 _, iglobs = _ex.module_globals(ifile)
